@@ -536,8 +536,8 @@ def sample(case):
             c[key] = c[key][:3] + ['... %d more' % (len(c[key]) - 3)]
     return c
 
-THEOREM_FILES = ['P_C05', 'P_C05_gen', 'P_C05_ast', 'P_C05_zmat', 'P_C05_zmat_c']
-THEOREM_NEEDS = {'P_C05_gen': ['Equiv_bits', 'Equiv_binom'], 'P_C05_ast': ['Equiv_cexpr'], 'P_C05_zmat': ['Equiv_zmat'], 'P_C05_zmat_c': ['Equiv_zmat_c']}
+THEOREM_FILES = ['P_C05', 'P_C05_gen', 'P_C05_ast', 'P_C05_zmat', 'P_C05_zmat_c', 'P_C05_addr']
+THEOREM_NEEDS = {'P_C05_gen': ['Equiv_bits', 'Equiv_binom'], 'P_C05_ast': ['Equiv_cexpr'], 'P_C05_zmat': ['Equiv_zmat'], 'P_C05_zmat_c': ['Equiv_zmat_c'], 'P_C05_addr': ['Equiv_zmat', 'Equiv_addr']}
 RULE = ('exhaustive over (norb, nele) tables up to the tier bound, every (i,j); cross-sector maps for every '
         'dn; operator-string maps for all index lists of length <= 2 plus random ones up to 4; 1/2-electron '
         'sectors at norb in {31..34,36,40,48,62..64} (three electrons at 34, 40); the inline helpers of bitstring.h compiled into a '
